@@ -102,6 +102,13 @@ def sd_then_poke() -> uint256:
     ok1: bool = raw_call(self.victim, concat(method_id("h_selfdestruct(uint256)"), convert(3, bytes32)), revert_on_failure=False)
     ok2: bool = raw_call(self.victim, method_id("poke()"), revert_on_failure=False)
     return convert(ok1, uint256) + 2 * convert(ok2, uint256)
+
+@external
+def sd_int_then_poke() -> uint256:
+    # same, the selfdestruct sits in an internal helper that is not itself @nonreentrant
+    ok1: bool = raw_call(self.victim, concat(method_id("h_selfdestruct_int(uint256)"), convert(3, bytes32)), revert_on_failure=False)
+    ok2: bool = raw_call(self.victim, method_id("poke()"), revert_on_failure=False)
+    return convert(ok1, uint256) + 2 * convert(ok2, uint256)
 """
 
 CHILD = """
@@ -177,6 +184,8 @@ def victim_source():
              ['    assert r == 12345, "no"', "    return r", ""]
     # exit through SELFDESTRUCT (no foreign code runs; since cancun the contract survives unless created in the same tx)
     L += ["@external", "@nonreentrant", "def h_selfdestruct(p: uint256) -> uint256:", "    selfdestruct(self.att)", ""]
+    L += ["@internal", "def _sd_helper():", "    selfdestruct(self.att)", "",
+          "@external", "@nonreentrant", "def h_selfdestruct_int(p: uint256) -> uint256:", "    self._sd_helper()", "    return 0", ""]
     return "\n".join(L)
 
 
@@ -346,18 +355,24 @@ def check_config(cfg):
     w.ch.revert(w.base)
     w.base = w.ch.snapshot()
     w.ch.reset_transient()
-    r = w.ch.call(w.A, w.ami["sd_then_poke()"])
-    n += 1
-    got = int.from_bytes(r.out, "big") if r.ok and len(r.out) == 32 else None
-    if got != 3:
-        d = {"config": cfg.name, "lock": "transient" if transient else "storage", "handover": "selfdestruct", "function": "h_selfdestruct",
-             "observed": {"ok": r.ok, "flags(ok_selfdestruct + 2*ok_poke)": got}, "victim_source": victim_source(), "attacker_source": ATTACKER,
-             "how": "attacker.sd_then_poke(): calls victim.h_selfdestruct(3) and then victim.poke() in one transaction"}
-        if got == 1:
-            sd.append((f"lock not released when a protected function exits through selfdestruct ({cfg.name}): the next call to a protected "
-                       "function in the same transaction reverts", d))
-        else:
-            mism.append(dict(d, problem="selfdestruct sequence failed"))
+    for seq, fn, shape in (("sd_then_poke()", "h_selfdestruct", "selfdestruct directly in the @nonreentrant function"),
+                           ("sd_int_then_poke()", "h_selfdestruct_int", "selfdestruct in an internal helper (not itself @nonreentrant) "
+                                                                        "called from the @nonreentrant function")):
+        w.ch.revert(w.base)
+        w.base = w.ch.snapshot()
+        w.ch.reset_transient()
+        r = w.ch.call(w.A, w.ami[seq])
+        n += 1
+        got = int.from_bytes(r.out, "big") if r.ok and len(r.out) == 32 else None
+        if got != 3:
+            d = {"config": cfg.name, "lock": "transient" if transient else "storage", "handover": "selfdestruct", "function": fn, "shape": shape,
+                 "observed": {"ok": r.ok, "flags(ok_selfdestruct + 2*ok_poke)": got}, "victim_source": victim_source(), "attacker_source": ATTACKER,
+                 "how": f"attacker.{seq}: calls victim.{fn}(3) and then victim.poke() in one transaction"}
+            if got == 1:
+                sd.append((f"lock not released when a protected function exits through selfdestruct ({cfg.name}; {shape}): the next call to a "
+                           "protected function in the same transaction reverts", d))
+            else:
+                mism.append(dict(d, problem="selfdestruct sequence failed"))
     return n, nt, viol, mism, sd
 
 
@@ -397,7 +412,7 @@ def part_handover(ctx, cfgs):
         ctx.violation("failing-input", name, d, key=f"c09:handover:{d['handover']}:{d['lock']}")
     if sd:
         name, d = sd[0]
-        d = dict(d, configurations=[x[1]["config"] for x in sd])
+        d = dict(d, configurations=sorted({x[1]["config"] for x in sd}), shapes=sorted({x[1]["shape"] for x in sd}))
         ctx.violation("failing-input", "lock not released when a protected function exits through selfdestruct: the next call to a "
                       "protected function in the same transaction reverts (all configurations listed)", d,
                       key="c09:selfdestruct-exit-keeps-lock")
